@@ -163,9 +163,10 @@ def finish(rep, seed=0, floors=None):
           'wall_s': round(wall, 2), 'violations': len(new)}
     if rep.level == 'proof' and cov['discharged'] != cov['obligations']:
         ev['level'] = 'other'
-    os.makedirs(os.path.join(VERIF, 'evidence'), exist_ok=True)
-    with open(os.path.join(VERIF, 'evidence', rep.prop + '.json'), 'w') as f:
-        json.dump(ev, f, indent=1)
+    if not os.environ.get('UPV_NO_EVIDENCE'):
+        os.makedirs(os.path.join(VERIF, 'evidence'), exist_ok=True)
+        with open(os.path.join(VERIF, 'evidence', rep.prop + '.json'), 'w') as f:
+            json.dump(ev, f, indent=1)
     print('%s tier=%s units=%d functions=%d obligations=%d holds=%d violated=%d (known %d) undecided=%d wall=%.1fs' % (
         rep.prop, rep.tier, len(rep.units), rep.nfuncs, cov['obligations'],
         cov['discharged'], len(viol), len(listed), cov['undecided'], wall))
